@@ -66,6 +66,9 @@ func writeEvidence(cc *CheckCfg, tier string, seed int, runs []*harnessRun, wall
 			"reach_and_assert_labels": reach, "findings": len(r.Findings), "native_samples_agreeing": hr.samplesAgree, "native_samples": len(r.Samples),
 			"note": hr.cfg.Note,
 		}
+		if hr.cross != nil {
+			hi["cross_solver_recheck"] = hr.cross
+		}
 		if hr.cfg.MaxInstr == 0 {
 			hi["per_path_instruction_budget_unwinding_bound"] = 50000000
 		}
